@@ -54,7 +54,7 @@ def keylens(a, tier):
 
 
 def pts_keys(tier):
-    return [(a, kl) for a in ALGS for kl in keylens(a, tier) if not (a == 'md6_256' and tier == 'quick' and kl not in (0, 1, 32, 383, 384, 385, 2 * 384))]
+    return [(a, kl) for a in ALGS for kl in keylens(a, tier) if not (a == 'md6_256' and kl not in (0, 1, 32, 383, 384, 385, 2 * 384))]      # MD6 (104 rounds, 384-byte blocks) is slow: boundary key lengths in both tiers
 
 
 def run_keys(ctx, pt):
@@ -159,8 +159,8 @@ def systems(tier):
     algs = [a for a in ALGS if a != 'md6_256'] if tier == 'thorough' else ['md5', 'sha256', 'blake256', 'blake2s']
     d = {a: KeySys(a) for a in algs}
     for a, sysm in d.items():
-        # depth 4 costs 22 times depth 3: the thorough tier affords it for two hashes and keeps depth 3 for the others
-        sysm.depth = {'quick': 3, 'thorough': 4 if a in ('md5', 'blake2s') else 3}
+        # depth 4 costs 22 times depth 3: the thorough tier affords it for MD5 and keeps depth 3 for the others
+        sysm.depth = {'quick': 3, 'thorough': 4 if a == 'md5' else 3}
     return d
 
 
@@ -189,7 +189,7 @@ def subchecks():
         Sub('key-lengths', pts_keys, run_keys, engine='P',
             bound='17 hashes (MD4, MD5, SHA-0, SHA-1, SHA-224/256/384/512, SHA-512/224, SHA-512/256, BLAKE-224/256/384/512, BLAKE2s, BLAKE2b, MD6-256: every hash class with a block size) x every key length 0..3 blocks (quick: 17 lengths around 0, the digest size, 1, 2 and 3 blocks) x 2 key patterns x 4 messages (empty, 3 bytes, one block, one block+1; 5 blocks-1 at 5 key lengths)'),
         hsub('setkey-histories', systems, lambda tier: 3 if tier == 'quick' else 4, split=lambda tier: 8 if tier == 'quick' else 21,
-             bound='one HMAC object per hash (quick: 4 hashes), events setkey(short/exact/long/empty/2 blocks, and a key that is a prefix of another with a message that makes key||message coincide), setkey with one caller-owned bytearray overwritten in place, direct use of the shared hash object by the caller (one-shot, with salt / bit length, an unfinished update), and two MACs, all histories to depth 3 (thorough: depth 4 for MD5 and BLAKE2s, depth 3 for the 14 other hashes), state = (key class, stored key)'),
+             bound='one HMAC object per hash (quick: 4 hashes), events setkey(short/exact/long/empty/2 blocks, and a key that is a prefix of another with a message that makes key||message coincide), setkey with one caller-owned bytearray overwritten in place, direct use of the shared hash object by the caller (one-shot, with salt / bit length, an unfinished update), and two MACs, all histories to depth 3 (thorough: depth 4 for MD5, depth 3 for the 15 other hashes), state = (key class, stored key)'),
     ]
 
 
